@@ -29,3 +29,18 @@ def match(open_findings, violation, scenario):
         except Exception:  # noqa: BLE001,S112
             continue
     return None
+
+
+@matcher("c02_stale_above_spiral")
+def _c02_stale_above_spiral(v, scn, params):
+    """D0b: a value kept *above* a spiral loop (as tests/core/test_cycles.py::
+    test_spiral_cache requires) was reproducible when it was retained; a later
+    request made readable an entry that the original computation had replaced by
+    a default (or had computed from that default and purged), and the fresh
+    recomputation now reads that entry."""
+    return (
+        v.get("clause") == "C02.retained.old"
+        and v.get("reproducible_when_retained") is True
+        and bool(v.get("reads_later_retained_default"))
+        and scn.get("profile") != "acyclic"
+    )
